@@ -313,6 +313,7 @@ class Rule(MethodWIGM):
     method = 'wigm' # underlying method
     name = 'mpls'
     quota_name = 'Threshold'
+    defeats_undeclared = True   # 167.70(c)(1)c: undeclared write-ins cannot be elected
 
     @classmethod
     def ruleNames(cls):
